@@ -14,7 +14,7 @@ const uxPkg = "internal/unexports2"
 
 func c10(c *Ctx) {
 	p, r := c.K1(), c.R
-	r.Expl = "Structural clauses behind 'symbol lookup by name yields the exact run-time address or an error': the load-slide globals are read only after the sync.Once initialiser (in the same function); the anchor names passed to the by-name lookups inside the initialiser are the fully-qualified names of exactly the function / variable whose run-time address is subtracted, and the slide is run-time minus table address; lookups return table address + slide only on the err==nil path and (0, err) otherwise; a missing symbol produces a non-nil error; symbol names are compared with == only. Correctness of the slide for every symbol and link mode is a fact about the linker and is not decided."
+	r.Expl = "Structural clauses behind 'symbol lookup by name yields the exact run-time address or an error': the load-slide globals are read only after the sync.Once initialiser (in the same function); the anchor names passed to the by-name lookups inside the initialiser are the fully-qualified names of exactly the function / variable whose run-time address is subtracted, and the slide is run-time minus table address; lookups return table address + slide only on the err==nil path and (0, err) otherwise; a missing symbol produces a non-nil error; symbol names are compared with == only; the error tests of the lookup package are not inverted; the slide is applied by addition to a symbol of its own kind wherever it is used; the symbols read are all entered and stored in the table. Correctness of the slide for every symbol and link mode is a fact about the linker and is not decided."
 	r.RuleText = "one obligation per (rule, read site / anchor / return / comparison)"
 	r.Floor("C10.R1", 2)
 	r.Floor("C10.R2", 2)
@@ -24,6 +24,10 @@ func c10(c *Ctx) {
 	checkExactNameDerivation(p, r, "C10.R5")
 	checkSymbolCopyComplete(p, r, "C10.R3")
 	checkLookupErrorReaches(p, r, "C10.R3")
+	// R7: the error tests of the lookup package are not inverted and have consequences (shared with C13.R7/R8)
+	inUx := func(rel string) bool { return rel == uxPkg }
+	checkErrorPolarity(p, r, "C10.R7", inUx)
+	checkNoDeadComparisons(p, r, "C10.R7", inUx)
 	// R6: the symbol table the lookups read is published before any lookup can read it — every entry point passes the
 	// sync.Once before it reaches the lazily loaded table (C11.R1 on the two table variables)
 	if !c.importing {
@@ -233,6 +237,41 @@ func c10(c *Ctx) {
 	}
 	// ---- R3 address only on success
 	for _, f := range fns {
+		// every arithmetic use of a slide outside the initialiser is "table address of a symbol + slide of its kind"
+		if f.Blocks != nil && f != initFn {
+			eachInstr(f, func(i ssa.Instruction) {
+				ld, ok := i.(*ssa.UnOp)
+				if !ok || ld.Op != token.MUL {
+					return
+				}
+				g, ok := ld.X.(*ssa.Global)
+				if !ok {
+					return
+				}
+				if _, ok := slides[g]; !ok || ld.Referrers() == nil {
+					return
+				}
+				for _, ref := range *ld.Referrers() {
+					bo, ok := ref.(*ssa.BinOp)
+					if !ok {
+						continue
+					}
+					other := bo.X
+					if other == ssa.Value(ld) {
+						other = bo.Y
+					}
+					symField := ""
+					for _, a := range origins(other) {
+						if _, fv, ok := fieldRef(a.V); ok && fv != nil && (fv.Name() == "Entry" || fv.Name() == "Value") {
+							symField = fv.Name()
+						}
+					}
+					kindOK := symField != "" && (symField == "Entry") == slideIsFunc[g]
+					r.Check(bo.Op == token.ADD && kindOK, "C10.R3", "slide "+g.Name()+" applied in "+shortName(f), p.Pos(posOf(bo)), "symbol's table address + slide of its kind",
+						"a by-name lookup combines the load slide with the symbol's table address by something other than addition (or with the slide of the other kind): the address handed out is not the symbol's run-time address")
+				}
+			})
+		}
 		if f.Object() == nil || !f.Object().Exported() || f.Signature.Results().Len() != 2 || errIndex(f.Signature) != 1 {
 			continue
 		}
@@ -315,7 +354,10 @@ func c10(c *Ctx) {
 			continue
 		}
 		if b, ok := f.Signature.Params().At(0).Type().Underlying().(*types.Basic); !ok || b.Kind() != types.String {
-			continue
+			// the by-address lookup of a symbol is held to the same rule
+			if rt := f.Signature.Results().At(0).Type().String(); !strings.HasSuffix(rt, "gosym.Func") && !strings.HasSuffix(rt, "gosym.Sym") {
+				continue
+			}
 		}
 		if _, ok := f.Signature.Results().At(0).Type().Underlying().(*types.Pointer); !ok {
 			continue
@@ -855,6 +897,7 @@ func checkSymbolCopyComplete(p *Prog, r *Report, rule string) {
 					okBound = true // idx - len < 0
 				}
 			}
+			c10CopiedListStored(p, r, rule, f, srcIdx.X)
 			first, step, okL := loopIndex(stripConstAdd(srcIdx.Index))
 			_ = first
 			if sl, ok := srcIdx.X.(*ssa.Slice); ok && (sl.Low != nil || sl.High != nil) {
@@ -971,4 +1014,101 @@ func errDerivedFrom(v, e ssa.Value) bool {
 		}
 	}
 	return false
+}
+
+
+// c10CopiedListStored: C10.R3 clause — when the executable's symbol list was read successfully (list non-nil, error nil),
+// every way to a return that reports success passes a store into the table's Syms field: the symbols that were read are
+// the ones the by-name variable lookup searches. Branches on the reader's own list/error are followed only on the side a
+// successful read takes.
+func c10CopiedListStored(p *Prog, r *Report, rule string, f *ssa.Function, list ssa.Value) {
+	var call *ssa.Call
+	for _, a := range origins(list) {
+		if ex, ok := a.V.(*ssa.Extract); ok {
+			call, _ = ex.Tuple.(*ssa.Call)
+		}
+	}
+	if call == nil || errIndex(f.Signature) < 0 {
+		return
+	}
+	ei := errIndex(f.Signature)
+	isSymsStore := func(i ssa.Instruction) bool {
+		st, ok := i.(*ssa.Store)
+		if !ok {
+			return false
+		}
+		_, fv, ok := fieldRef(st.Addr)
+		if !ok || fv == nil || fv.Name() != "Syms" {
+			return false
+		}
+		sl, ok := st.Val.Type().Underlying().(*types.Slice)
+		return ok && strings.HasSuffix(sl.Elem().String(), "gosym.Sym")
+	}
+	// the side of a test of the reader's results that a successful read takes: 0 true, 1 false, -1 not such a test
+	sideOf := func(cond ssa.Value) int {
+		bo, ok := cond.(*ssa.BinOp)
+		if !ok || (bo.Op != token.EQL && bo.Op != token.NEQ) || !(isNilConst(bo.X) || isNilConst(bo.Y)) {
+			return -1
+		}
+		x := bo.X
+		if isNilConst(x) {
+			x = bo.Y
+		}
+		ex, ok := resolveLocal(x).(*ssa.Extract)
+		if !ok || ex.Tuple != ssa.Value(call) {
+			return -1
+		}
+		isErr := isErrorType(ex.Type())
+		// success: list != nil, err == nil
+		holds := (bo.Op == token.NEQ) != isErr
+		if holds {
+			return 0
+		}
+		return 1
+	}
+	type state struct {
+		b      *ssa.BasicBlock
+		stored bool
+	}
+	seen := map[state]bool{}
+	bad := ""
+	var walk func(b *ssa.BasicBlock, start int, stored bool)
+	walk = func(b *ssa.BasicBlock, start int, stored bool) {
+		if start == 0 {
+			if seen[state{b, stored}] {
+				return
+			}
+			seen[state{b, stored}] = true
+		}
+		for _, i := range b.Instrs[start:] {
+			if isSymsStore(i) {
+				stored = true
+			}
+		}
+		switch t := lastInstr(b).(type) {
+		case *ssa.Return:
+			if ei < len(t.Results) && isNilConst(retResult(t, ei)) && !stored {
+				bad = p.Pos(posOf(t))
+			}
+		case *ssa.If:
+			switch sideOf(t.Cond) {
+			case 0:
+				walk(b.Succs[0], 0, stored)
+			case 1:
+				walk(b.Succs[1], 0, stored)
+			default:
+				walk(b.Succs[0], 0, stored)
+				walk(b.Succs[1], 0, stored)
+			}
+		case *ssa.Jump:
+			walk(b.Succs[0], 0, stored)
+		}
+	}
+	for k, i := range call.Block().Instrs {
+		if i == ssa.Instruction(call) {
+			walk(call.Block(), k+1, false)
+		}
+	}
+	r.Check(bad == "", rule, "symbols read are stored in the table by "+shortName(f), p.Pos(posOf(call)), "after a successful read every successful return has passed table.Syms = list",
+		"after the executable's symbols were read successfully the function can report success ("+bad+") without having stored them in the table: every variable that is present in the binary is reported as not found")
 }
